@@ -137,7 +137,7 @@ def prefix_composition(repo, res):
     bad_keys = {f.key.split("/", 1)[1]: f for f in tmp.findings}
     n = 0
     for k in tmp.rules["C12-R2"]["keys"]:
-        if k.endswith(":derived-rows") or k.startswith("_forget_prefixed"):
+        if k.endswith(":derived-rows") or k.startswith("_forget_prefixed") or k.endswith(":unit-cache"):
             n += 1
             if k in bad_keys:
                 f = bad_keys[k]
@@ -280,11 +280,12 @@ def homomorphism(repo, res):
     if len(unpack) != 1:
         raise AnalysisError(f"{fn.where()}: `coeff, mul = self.expr.as_coeff_Mul()` not found")
     cname, mname = [e.id for e in unpack[0].targets[0].elts]
-    res.check(norm(b.get("unit_expr")) == mname, "as_coeff_unit:expr", fn.where(calls[0]), "as_coeff_unit: new expr must be the coefficient-free part", mname, norm(b.get("unit_expr")), rid=r3)
+    res.check(b.get("unit_expr") is not None and norm(b.get("unit_expr")) == mname, "as_coeff_unit:expr", fn.where(calls[0]), "as_coeff_unit: new expr must be the coefficient-free part", mname, norm(b.get("unit_expr")) if b.get("unit_expr") is not None else None, rid=r3)
     bv = b.get("base_value")
     ok = isinstance(bv, ast.BinOp) and isinstance(bv.op, ast.Div) and norm(bv.left) == "self.base_value" and norm(bv.right) == cname
     res.check(ok, "as_coeff_unit:base_value", fn.where(calls[0]), "as_coeff_unit: base_value must be divided by exactly the coefficient removed from expr", f"self.base_value / {cname}", norm(bv) if bv is not None else None, rid=r3)
-    res.check(norm(b.get("dimensions")) == "self.dimensions" and norm(b.get("base_offset")) == "self.base_offset", "as_coeff_unit:dims-offset", fn.where(calls[0]), "as_coeff_unit keeps dimensions and offset", rid=r3)
+    nz = lambda x: norm(x) if x is not None else None  # noqa: E731  (an argument left out takes the constructor's default)
+    res.check(nz(b.get("dimensions")) == "self.dimensions" and nz(b.get("base_offset")) == "self.base_offset", "as_coeff_unit:dims-offset", fn.where(calls[0]), "as_coeff_unit keeps dimensions and offset (an offset left out is the constructor's default 0: the coefficient-free part of degC or lat would no longer equal the unit)", "dimensions=self.dimensions, base_offset=self.base_offset", (nz(b.get("dimensions")), nz(b.get("base_offset"))), rid=r3)
     rets = [n for n in ast.walk(fn.node) if isinstance(n, ast.Return)]
     tgt = None
     for s in fn.body:
